@@ -13,6 +13,16 @@ CHECKS = {
             "Trusted: clang 14 front end; classification tables for std calls in cqverif/effects.py; allow-lists in rules/c03.json. "
             "Not decided: values written for movable cells; user callbacks.",
             "DESIGN.md 2/C03"),
+    "C10": ("dominance / must-pass-through analysis of the busy-flag protocol, exception-exit coverage (RAII or catch-all), who-may-write",
+            "Protocol decided structurally: every structural setter is dominated by the busy check; the busy flag is set while a placer runs and "
+            "cleared on every normal and exceptional exit; parameter validation precedes all work; a failed legalization exports nothing.",
+            "Trusted: clang 14 front end; every call is treated as may-throw unless declared noexcept. Not decided: user callback behaviour.",
+            "DESIGN.md 2/C10"),
+    "C19": ("interval evaluation under dominating guards (bounded subscripts, assert-precondition discharge), dominance of length/index validation over member writes",
+            "Input validation decided structurally for all argument values: array subscripts and asserting helpers are reached only under throwing "
+            "range guards; every vector length and pin index is validated by throw before any member is written; params.check() comes first.",
+            "Trusted: clang 14 front end; interval evaluator in cqverif/intervals.py. Not decided: exception type/message; row geometry validation.",
+            "DESIGN.md 2/C19"),
 }
 
 NOT_APPLICABLE = {
